@@ -57,6 +57,7 @@ func (c *Conversation) retransmitAfterCompletedExchange(wasIdle bool, err error)
 
 func (c *Conversation) processAKE(msgType byte, msg []byte) (toSend []messageWithHeader, err error) {
 	c.ensureAKE()
+	stateBefore := c.ake.state.identity()
 
 	var toSendSingle messageWithHeader
 	var toSendExtra []messageWithHeader
@@ -78,7 +79,11 @@ func (c *Conversation) processAKE(msgType byte, msg []byte) (toSend []messageWit
 		err = newOtrErrorf("unknown message type 0x%X", msgType)
 	}
 
-	c.ake.lastStateChange = time.Now()
+	if err == nil && (c.ake.state.identity() != stateBefore || len(toSendSingle) > 0) {
+		// a message that was rejected or ignored is no step of a key exchange: it must not make the
+		// conversation ignore the next query message
+		c.ake.lastStateChange = time.Now()
+	}
 
 	messages := append([]messageWithHeader{toSendSingle}, toSendExtra...)
 	toSend = compactMessagesWithHeader(messages...)
